@@ -100,11 +100,10 @@ func probes() pbt.Probes {
 		fNullDflt: probeOf(fNullDflt, probeCase("fIs", "$x", "{}", ir.VarDecl{Name: "x", Type: "[Int]", Default: "null"})),
 		fShift: probeOf(fShift, probeCase("fIns", "[null, {a: 1}]", ""),
 			probeCase("fIns", "$x", `{"x":[null,{"a":1}]}`, ir.VarDecl{Name: "x", Type: "[In]"})),
-		fSingle:   probeOf(fSingle, probeCase("fL", "$x", `{"x":{}}`, ir.VarDecl{Name: "x", Type: "L"})),
-		fBrace:    probeOf(fBrace, probeCase("fS", `"`+bs+`u{1F600}"`, "")),
-		fRawTab:   probeOf(fRawTab, probeCase("fJ", "{g: \"\t\"}", ""), probeCase("fS", "\"a\tb\"", "")),
-		fBlockQ:   probeOf(fBlockQ, probeCase("fS", q3+`" a`+q3, ""), probeCase("fS", q3+` ""`+"\t"+q3, "")),
-		fNoVarsNl: probeOf(fNoVarsNl, probeCase("fIn", "{a: 1, d: $x}", "", ir.VarDecl{Name: "x", Type: "E"})),
-		fBlockBs:  probeOf(fBlockBs, probeCase("fS", q3+bs+bs+q3+" "+q3, "")),
+		fSingle:  probeOf(fSingle, probeCase("fL", "$x", `{"x":{}}`, ir.VarDecl{Name: "x", Type: "L"})),
+		fBrace:   probeOf(fBrace, probeCase("fS", `"`+bs+`u{1F600}"`, "")),
+		fRawTab:  probeOf(fRawTab, probeCase("fJ", "{g: \"\t\"}", ""), probeCase("fS", "\"a\tb\"", "")),
+		fBlockQ:  probeOf(fBlockQ, probeCase("fS", q3+`" a`+q3, ""), probeCase("fS", q3+` ""`+"\t"+q3, "")),
+		fBlockBs: probeOf(fBlockBs, probeCase("fS", q3+bs+bs+q3+" "+q3, "")),
 	}
 }
